@@ -301,7 +301,7 @@ class TokWorld:
 # ------------------------------------------------------------------ generation
 
 def gen_piece(rng, ntracks, values, pitch_range, nbars=None):
-    nbars = nbars or rng.choice([1, 2, 2, 3, 3, 4, 5, 6])
+    nbars = nbars or rng.choice([1, 2, 2, 3, 3, 3, 4, 4, 5, 6])
     sig = rng.choice(SIGS[:12])
     p_change = rng.choice([0.0, 0.2, 0.5])
     bars = []
@@ -338,7 +338,7 @@ def gen_piece(rng, ntracks, values, pitch_range, nbars=None):
 
 def gen_cuts(rng, piece):
     nb = len(piece["bars"])
-    shape = rng.choice(["uniform", "uniform", "singletons", "one", "at_changes", "around_empty"])
+    shape = rng.choice(["uniform", "uniform", "uniform", "singletons", "singletons", "one", "at_changes", "around_empty"])
     if nb <= 1 or shape == "one":
         return []
     if shape == "singletons":
